@@ -126,6 +126,13 @@ Record cst2 := { shared : list elt; recp : list elt; recq : list elt }.
 Definition ctor_alias (s : cst) : cst2 := {| shared := items s; recp := rec s; recq := items s |}.
 Definition append_q (x : elt) (t : cst2) : cst2 := {| shared := shared t ++ [x]; recp := recp t; recq := recq t ++ [x] |}.
 
+(* ---- a write path OUTSIDE the proved fragment (known finding C16-i) ----------------------------------------------
+   K_setitem_grown: __setitem__(i, v) / insert(i, v) call _on_add(v) BEFORE the builtin stores v.  On a field that inference writes
+   back into (a transitive or symmetric property: the relations inferred from (owner, f, v) have the owner as source and f as field)
+   the inferred elements [inf] are appended to the list first, so a NEGATIVE index is resolved against the grown list.
+   C16_writes models fields whose inferences go elsewhere (inf = []). *)
+Definition setitem_grown (i : Z) (x : elt) (inf : list elt) (l : list elt) : option (list elt) := py_setitem i x (l ++ inf).
+
 From Krrood Require Import Base.Sx.
 Definition model_out (k : kind) (ops : list op) (vs0 : list elt) : sx :=
   let '(tr, fin) := run k ops (init k vs0) in SL [trace_sx tr; elts_sx (rec fin)].
@@ -134,3 +141,5 @@ Definition ctor_copy_out (vs0 : list elt) (x : elt) : sx :=
   let p := init KList vs0 in
   let q := add_item KList (ctor_copy p) x in
   SL [elts_sx (items p); elts_sx (rec p); elts_sx (items q); elts_sx (rec q)].
+Definition setitem_grown_out (i : Z) (x : elt) (inf l : list elt) : sx :=
+  match setitem_grown i x inf l with Some l' => elts_sx l' | None => SZ (-1) end.
